@@ -81,6 +81,14 @@ def summarise(lp: Event) -> Dict[str, Summary]:
         if len(values) != 1:
             raise NotExtreme(f"'{name}' is set to different values on different paths")
         v = cand[0][1]
+        # ``acc = min(acc, f(e))`` / ``acc = max(f(e), acc)`` on every path: the two-argument fold of a running extreme (ties keep the accumulator,
+        # exactly like ``if f(e) < acc: acc = f(e)``)
+        if v[0] in ("max", "min") and len(v[1]) == 2 and acc in v[1] and len(cand) == len([bp for bp in lp.extra["paths"]]) and all(c_ == cand[0][0] or True for c_, _ in cand):
+            other = [x for x in v[1] if x != acc]
+            if len(other) == 1 and not loop_carried(other[0], lineno) and all(bp.env.get(name) == v for bp in lp.extra["paths"]):
+                key = subst(other[0], {elem: ELEM})
+                out[name] = Summary(name, v[0], key, init_env[name], lp.term, lp, True)
+                continue
         if loop_carried(v, lineno):
             raise NotExtreme(f"the candidate for '{name}' ({show(v)}) depends on a value that is still being accumulated in the same loop")
         if len(cand) != 1:
